@@ -185,7 +185,8 @@ def C06(F, rep, tier, cx):
 def C07(F, rep, tier, cx):
     """K7 single producer / single consumer per stage and mode; K8 no transfer after end-of-stream; Q2 eof only on the empty branch;
     K1 all stage state under the stage mutex"""
-    ws = cx.ws()
+    ws = RP.K2(F, rep, cx.R)   # a timed or bare wait makes the outcome depend on the schedule
+    cx._ws = ws
     RP.K7(F, rep, cx.R, ws)
     RP.K8(F, rep, cx.R, cx.FL)
     RP.Q(F, rep, cx.R, cx.FL)
@@ -201,6 +202,7 @@ def C08(F, rep, tier, cx):
     declares end of stream on whatever way it leaves"""
     RF.E1(F, rep, cx.FL)
     RF.E2B3(F, rep, cx.FL, {'E2'})
+    RF.E4(F, rep)
     RP.K5(F, rep, cx.R, cx.FL, ('BLF',), 'library-exception')
 
 
@@ -231,6 +233,7 @@ def C11(F, rep, tier, cx):
     rep.obs = [o for o in rep.obs if o['rule'] != 'K4']
     rep.counts.pop('K4', None)
     RF.K9(F, rep, cx.R, cx.FL)
+    RF.G1(F, rep)
     RF.O1O2(F, rep, cx.FL, [RF.U2Q, RF.Q2U, FILE + '::read', FILE + '::write'], rules=('O1',))
 
 
@@ -238,6 +241,7 @@ def C12(F, rep, tier, cx):
     """P1 finite capacities configured; P2 every insertion preceded by a back-pressure wait; P3 dropOldData on every committing path"""
     RP.P(F, rep, cx.R, cx.FL, cx.ws())
     RF.P4(F, rep, cx.FL)
+    RF.P5(F, rep, cx.FL)
 
 
 def C13(F, rep, tier, cx):
@@ -253,8 +257,9 @@ def C13(F, rep, tier, cx):
 def C14(F, rep, tier, cx):
     """D4 every serialised scalar has an initialiser; B6 every write source is object state; Z1 skipp writes zeroes"""
     RD.D4(F, rep)
-    run_layout(F, rep, write_rules=('B6', 'B5'), extra_classes=(FILESTAT,))
+    run_layout(F, rep, write_rules=('B6', 'B5', 'B2'), extra_classes=(FILESTAT,))
     RF.Z1(F, rep)
+    RF.G1(F, rep)
 
 
 def C16(F, rep, tier, cx):
